@@ -87,10 +87,10 @@ Proof. vm_compute. repeat split; reflexivity. Qed.
 
 (* the dirtiness walk used by redo-ood never touches a file *)
 Theorem C17_ood_walk_readonly : forall fuel runid w c f r mx seen v w' c' evs,
-  is_dirty fuel runid w c f r mx seen = Ret (v, w', c', evs) -> fs w' = fs w.
-Proof. exact is_dirty_fs. Qed.
+  is_dirty fuel runid nil w c f r mx seen = Ret (v, w', c', evs) -> fs w' = fs w.
+Proof. intros fuel runid. exact (is_dirty_fs fuel runid nil). Qed.
 Check C17_ood_walk_readonly : forall fuel runid w c f r mx seen v w' c' evs,
-  is_dirty fuel runid w c f r mx seen = Ret (v, w', c', evs) -> fs w' = fs w.
+  is_dirty fuel runid nil w c f r mx seen = Ret (v, w', c', evs) -> fs w' = fs w.
 Print Assumptions C17_ood_walk_readonly.
 
 Example C17_example :
@@ -107,10 +107,10 @@ Proof. vm_compute. reflexivity. Qed.
 Theorem C17_lists_nothing_when_quiet : forall runid w rk S fuel g l,
   forallb (quiet_row_b runid w rk S) S = true -> In g S -> (rk g < fuel)%nat ->
   (forall chg, r_changed (ld runid w g) = Some chg -> (chg <= runid)%Z) ->
-  exists l' evs, is_dirty fuel runid w (ChkMem l) g (ld runid w g) runid nil = Ret (VClean, w, ChkMem l', evs).
+  exists l' evs, is_dirty fuel runid nil w (ChkMem l) g (ld runid w g) runid nil = Ret (VClean, w, ChkMem l', evs).
 Proof. exact quiet_b_all_clean. Qed.
 Check C17_lists_nothing_when_quiet : forall runid w rk S fuel g l,
   forallb (quiet_row_b runid w rk S) S = true -> In g S -> (rk g < fuel)%nat ->
   (forall chg, r_changed (ld runid w g) = Some chg -> (chg <= runid)%Z) ->
-  exists l' evs, is_dirty fuel runid w (ChkMem l) g (ld runid w g) runid nil = Ret (VClean, w, ChkMem l', evs).
+  exists l' evs, is_dirty fuel runid nil w (ChkMem l) g (ld runid w g) runid nil = Ret (VClean, w, ChkMem l', evs).
 Print Assumptions C17_lists_nothing_when_quiet.
